@@ -35,11 +35,15 @@ pub fn fn_random_u256() -> U256 {
     let mut ret;
     loop {
         rng.fill_bytes(&mut buf[..]);
+        #[cfg(gm_rs_verif)]
+        crate::verif_hooks::candidate(&mut buf);
         ret = u256_from_be_bytes(&buf);
         if ret < SM9_N_MINUS_ONE && ret != [0, 0, 0, 0] {
             break;
         }
     }
+    #[cfg(gm_rs_verif)]
+    crate::verif_hooks::accepted(&ret);
     ret
 }
 
